@@ -133,8 +133,8 @@ def to_stmx(g, start, stop, dt, reciprocal):
 
 
 RUNSPECS = []
-for _st in (0, 1):
-    for _dt in (1, 0.5, 0.25, 0.125, 0.2, 0.1, 0.05, 0.01):
+for _st in (0, 1, 0.5, 0.3):
+    for _dt in (1, 0.5, 0.25, 0.125, 0.2, 0.1, 0.05, 0.01, 0.4, 0.3):
         RUNSPECS.append((_st, _dt, None))
     for _r in (2, 3, 4, 8, 10):
         RUNSPECS.append((_st, None, _r))
@@ -228,7 +228,7 @@ def run_case(case, tier, with_bptk=False):
 
 def cases(tier):
     out = []
-    cfgs = [(1, 0), (0, 1), (1, 1), (2, 1), (1, 2), (2, 2)]
+    cfgs = [(1, 0), (0, 1), (1, 1), (2, 1), (1, 2), (2, 2), (3, 3), (4, 0), (0, 4), (5, 3), (3, 5), (4, 4)]
     for (st, dt, rec) in RUNSPECS:
         for (ni, no) in cfgs:
             for sh in SHAPES:
@@ -279,10 +279,10 @@ def run(ctx):
                 rs = "dt=%r" % case[-2] if case[-1] is None else "reciprocal=%r" % case[-1]
                 ctx.violation("C04/%s/%s/%s" % (clause, rs, "/".join(str(x) for x in case[:-3])), {"case": list(case)}, detail)
     ctx.finish({
-        "evaluations": len(cs), "distinct_nontrivial": nontrivial, "value_comparisons": ncmp, "reference_undefined": undefined,
+        "evaluations": len(cs), "flow_configurations": [(1, 0), (0, 1), (1, 1), (2, 1), (1, 2), (2, 2), (3, 3), (4, 0), (0, 4), (5, 3), (3, 5), (4, 4)], "distinct_nontrivial": nontrivial, "value_comparisons": ncmp, "reference_undefined": undefined,
         "rule": "stock/flow graphs (1 stock: in/out configurations %s x 8 flow shapes x uni/bi/mixed; 2 stocks in a chain) x run specs "
-                "(start 0/1 x dt in 1,.5,.25,.125,.2,.1,.05,.01 x reciprocal dt 2,3,4,8,10); one .stmx compile + DSL twin per case; "
-                "non-trivial = compiled and compared with the Euler reference" % ([(1, 0), (0, 1), (1, 1), (2, 1), (1, 2), (2, 2)],),
+                "(start 0/1/0.5/0.3 x dt in 1,.5,.25,.125,.2,.1,.05,.01,.4,.3 x reciprocal dt 2,3,4,8,10); one .stmx compile + DSL twin per case; "
+                "non-trivial = compiled and compared with the Euler reference" % ("up to 5 inflows / 5 outflows",),
         "samples": [list(c) for c in cs[:3]] + [list(cs[len(cs) // 2])],
     }, assumptions=["non-negative *stocks* (outflow limiting) not modelled", "Euler reference mc/refsd.py on an exact rational grid"])
 
